@@ -1,5 +1,6 @@
 import XpmVerif.Proofs.ValidateX
 import XpmVerif.Properties.C15
+import XpmVerif.Properties.C15Mro
 /-! C15 — the property theorems for the extended model (`Model/ValidateX.lean`): `Argument.checker` (e.g.
     `Choices`), user `__validate__` hooks, task-valued parameters.  Each theorem of `Properties/C15.lean` that
     mentions `setArg`, `validateFrom`, `submit` or `hstep` is re-proved here for `setArgX`, `validateFromX`,
@@ -155,6 +156,49 @@ theorem historyX_assign_checked (I : Impl) (C : Checkers) (H : Hooks) (s : HStat
           · rename_i hu
             refine ⟨nd, a, w, hnd, ha, hw, by simpa using hu, ?_⟩
             simp [hsl, hnd, ha, hw, hu]
+
+/-! ## Hooks that assign -/
+
+/-- (lemma) giving a configuration-free value to an argument that is not required and had none does not change what the
+    loop of `_validate` does -/
+theorem argsItems_set_missing (d : Bool) : ∀ (as : List ArgDecl) (vs : List (Option PyVal)) (k : Nat) (a : ArgDecl) (w : PyVal),
+    as[k]? = some a → (a.required && !a.generator) = false → valMissing vs k = true → refs d w = [] →
+    argsItems d as (vs.set k (some w)) = argsItems d as vs
+  | [], _, k, a, w, h, _, _, _ => by simp at h
+  | a0 :: as, [], k, a, w, _, _, _, _ => by simp
+  | a0 :: as, v :: vs, 0, a, w, h, hr, hm, hw => by
+    simp only [List.getElem?_cons_zero, Option.some.injEq] at h
+    subst h
+    simp only [valMissing, List.getElem?_cons_zero] at hm
+    simp only [List.set_cons_zero, argsItems]
+    congr 1
+    cases v with
+    | none => cases w <;> simp_all [argItems]
+    | some pv => cases pv <;> cases w <;> simp_all [argItems]
+  | a0 :: as, v :: vs, k + 1, a, w, h, hr, hm, hw => by
+    simp only [List.getElem?_cons_succ] at h
+    simp only [List.set_cons_succ, argsItems]
+    rw [argsItems_set_missing d as vs k a w h hr (by simpa [valMissing] using hm) hw]
+
+/-- **Hooks that complete a configuration**: an assignment (by a `__validate__` hook, or by anybody) of a value that
+    holds no configuration to an argument that is not required (or has a generator) and had no value changes neither the
+    missing-value test nor the edges of any node: the validation walk — outcome and flags — is the same before and
+    after, so the model may let the walk ignore such assignments. -/
+theorem completing_assignment_preserves_walk (d : Bool) (g : Graph) (n k : Nat) (nd : Node) (a : ArgDecl) (w : PyVal)
+    (hn : g.nodes[n]? = some nd) (ha : (g.args nd.cls)[k]? = some a) (hr : (a.required && !a.generator) = false)
+    (hm : valMissing nd.vals k = true) (hw : refs d w = []) :
+    ∀ m, nodeItems d (g.setVal n k w) m = nodeItems d g m := by
+  intro m
+  by_cases hmn : m = n
+  · subst hmn
+    have hlt : m < g.nodes.length := by
+      rcases Nat.lt_or_ge m g.nodes.length with h | h
+      · exact h
+      · rw [List.getElem?_eq_none h] at hn; cases hn
+    simp only [Graph.setVal, hn, nodeItems, Graph.args, List.getElem?_set_self hlt]
+    simp only [Graph.args] at ha
+    rw [argsItems_set_missing d _ nd.vals k a w ha hr hm hw]
+  · exact nodeItems_setVal_ne d g n k w m hmn
 
 /-! ### witnesses (the hypotheses are satisfiable, the extension is not vacuous) -/
 
